@@ -61,13 +61,19 @@ deriving Repr, DecidableEq
 
 structure State where
   phase : Phase := .hello
-  buf : Bytes := []
   decNonce : Nat := 0
   ready : Ready := .pending
   serverName : Option Bytes := none
   /-- `transport.close()` was called or the transport died: the loop makes no more read calls -/
   transportClosed : Bool := false
 deriving Repr
+
+/-- `_decode_noise_psk`: `decoded` is what `binascii.a2b_base64` returned (`none` = it raised).
+Runs in `__init__`, i.e. before a helper exists that could write anything. -/
+def checkPsk (decoded : Option Bytes) : Except NoiseErr Bytes :=
+  match decoded with
+  | none => .error .invalidKey
+  | some b => if b.length ≠ 32 then .error .invalidKey else .ok b
 
 /-! ## the 3-byte header splitter (state independent) -/
 
@@ -149,6 +155,10 @@ def eofReceived (s : State) : State × List Ev := handleError s .socketClosed
 
 /-! ## frame handlers: `Except` = a Python exception escaping `data_received` -/
 
+/-- the inbound cipher: `DecryptCipher.decrypt` under a given nonce.  The receive side uses only
+this function, so receive-side theorems quantify over *any* such function (no law needed) -/
+abbrev Dec := Nat → Bytes → Option Bytes
+
 abbrev Handler := Except (State × List Ev × Exc) (State × List Ev)
 
 /-- `bytes.find(b"\0", 1)` on the hello: the name bytes between index 1 and the first NUL at
@@ -196,8 +206,8 @@ def innerPacket (msg : Bytes) : Option Packet :=
   | th :: tl :: rest => some (be16 th tl, rest.drop 2)
   | _ => none
 
-def handleFrame (A : Aead) (s : State) (f : Bytes) : Handler :=
-  match A.dec s.decNonce f with
+def handleFrame (D : Dec) (s : State) (f : Bytes) : Handler :=
+  match D s.decNonce f with
   | none => .error (s, [], .invalidTag)
   | some msg =>
     let s := { s with decNonce := s.decNonce + 1 }
@@ -207,52 +217,62 @@ def handleFrame (A : Aead) (s : State) (f : Bytes) : Handler :=
 
 def handleClosed (s : State) : Handler := .ok (handleError s .protocol)
 
-def dispatch (cfg : Config) (A : Aead) (s : State) (f : Bytes) : Handler :=
+def dispatch (cfg : Config) (D : Dec) (s : State) (f : Bytes) : Handler :=
   match s.phase with
-  | .ready => handleFrame A s f
+  | .ready => handleFrame D s f
   | .hello => handleHello cfg s f
   | .handshake => handleHandshake cfg s f
   | .closed => handleClosed s
 
+/-- one frame, including what asyncio does with an escaping exception (`connection_lost(exc)`) -/
+def step1 (cfg : Config) (D : Dec) (s : State) (f : Bytes) : State × List Ev :=
+  match dispatch cfg D s f with
+  | .ok r => r
+  | .error (s1, ev, x) => let l := connectionLost s1 (some x); (l.1, ev ++ l.2)
+
 /-- the body of the `while` loop over the complete frames of the buffer: returns the state, the
 events, how many frames were consumed, and the exception that aborted the loop (if any) -/
-def handleAll (cfg : Config) (A : Aead) : State → List Bytes → State × List Ev × Nat × Option Exc
+def handleAll (cfg : Config) (D : Dec) : State → List Bytes → State × List Ev × Nat × Option Exc
   | s, [] => (s, [], 0, none)
   | s, f :: fs =>
-    match dispatch cfg A s f with
+    match dispatch cfg D s f with
     | .error (s1, ev, x) => (s1, ev, 0, some x)
     | .ok (s1, ev) =>
-      let r := handleAll cfg A s1 fs
+      let r := handleAll cfg D s1 fs
       (r.1, ev ++ r.2.1, r.2.2.1 + 1, r.2.2.2)
 
 def framesLen (fs : List Bytes) : Nat := (fs.map (fun f => 3 + f.length)).sum
 
+/-- the helper object: protocol state plus the receive buffer -/
+structure Helper where
+  st : State := {}
+  buf : Bytes := []
+deriving Repr
+
 /-- one `data_received(chunk)` as the selector transport runs it: no call once the transport is
 closed; an escaping exception becomes `connection_lost(exc)`, the frame stays in the buffer -/
-def feed (cfg : Config) (A : Aead) (s : State) (chunk : Bytes) : State × List Ev :=
-  if s.transportClosed then (s, []) else
-  let buf := s.buf ++ chunk
+def feed (cfg : Config) (D : Dec) (h : Helper) (chunk : Bytes) : Helper × List Ev :=
+  if h.st.transportClosed then (h, []) else
+  let buf := h.buf ++ chunk
   let d := drain splitter buf
-  let r := handleAll cfg A s d.1
+  let r := handleAll cfg D h.st d.1
   match r.2.2.2 with
   | some x =>
-    let s1 := { r.1 with buf := buf.drop (framesLen (d.1.take r.2.2.1)) }
-    let l := connectionLost s1 (some x)
-    (l.1, r.2.1 ++ l.2)
+    let l := connectionLost r.1 (some x)
+    ({ st := l.1, buf := buf.drop (framesLen (d.1.take r.2.2.1)) }, r.2.1 ++ l.2)
   | none =>
-    let s1 := { r.1 with buf := d.2.1 }
     match d.2.2 with
     | some () =>                                   -- marker byte invalid
-      let e := handleErrorAndClose s1 .protocol
-      (e.1, r.2.1 ++ e.2)
-    | none => (s1, r.2.1)
+      let e := handleErrorAndClose r.1 .protocol
+      ({ st := e.1, buf := d.2.1 }, r.2.1 ++ e.2)
+    | none => ({ st := r.1, buf := d.2.1 }, r.2.1)
 
-def run (cfg : Config) (A : Aead) : State → List Bytes → State × List (List Ev)
-  | s, [] => (s, [])
-  | s, c :: cs =>
-    let (s1, d) := feed cfg A s c
-    let (s2, ds) := run cfg A s1 cs
-    (s2, d :: ds)
+def run (cfg : Config) (D : Dec) : Helper → List Bytes → Helper × List (List Ev)
+  | h, [] => (h, [])
+  | h, c :: cs =>
+    let (h1, d) := feed cfg D h c
+    let (h2, ds) := run cfg D h1 cs
+    (h2, d :: ds)
 
 /-! ## writing (`write_packets`) -/
 
